@@ -48,14 +48,15 @@ NoZeroChord(r, d) == \A i \in 1..Len(d) : d[i].rest \/ Lo(r.division, d[i]) > 0
 C02Ok(r) == LET d == Eff(r.doc, r.flags)  cidx == ChordIdxOf(d)
              single == IF r.tracks = 1 THEN r.ev ELSE r.ev1
              notes == SelectSeq2(single, IsNote)  runs == Runs(notes) IN
-         /\ r.ok /\ r.ok1 /\ RunsShape(runs, cidx) /\ NoZeroChord(r, d)
+         /\ r.ok /\ r.ok1 /\ RunsShape(runs, cidx)
          /\ \E ch \in Choices(r.division, d) : LET st == StartsOf(r, d, ch) IN
               \A k \in 1..Len(cidx) :
                  LET i == cidx[k]  ons == runs[2 * k - 1]  offs == runs[2 * k] IN
                  /\ Ticks(ons) = {st[i]}                 \* all strikes at the instance start (first instance at 0)
                  /\ Ticks(offs) = {st[i + 1]}            \* all releases at its end = start of the next instance
                  /\ BagOfSeq(Keys(offs)) = BagOfSeq(Keys(ons))
-         /\ ReleaseBeforeStrike(r, SelectSeq2(r.ev, IsNote))
+         \* (a chord that rounds to 0 ticks strikes and releases at the same tick, strike first: the rule is about different chords)
+         /\ (NoZeroChord(r, d) => ReleaseBeforeStrike(r, SelectSeq2(r.ev, IsNote)))
          /\ (r.tracks > 1 => LET a == SelectSeq2(r.ev, IsNote) IN
                                BagOfSeq([j \in 1..Len(a) |-> Strip(a[j])]) = BagOfSeq([j \in 1..Len(notes) |-> Strip(notes[j])]))
 
